@@ -60,7 +60,16 @@ def parse_doc_tables(text):
             j += 2
             rows = []
             while not lines[j].startswith("==="):
-                rows.append(_split_cols(marker, lines[j]))
+                cells = _split_cols(marker, lines[j])
+                toks = lines[j].split()
+                if len(cells) >= 4 and toks and len(header) >= 4 and header[3].startswith("Equivalent in"):
+                    # a long definition may push the last column out of position (layout is not part of the
+                    # property): the equivalent is the last blank-separated token of the row, the symbol the first
+                    try:
+                        parse_equiv(cells[3])
+                    except (ValueError, ZeroDivisionError):
+                        cells = [toks[0]] + cells[1:3] + [toks[-1]]
+                rows.append(cells)
                 j += 1
             out[cur]["tables"] += 1
             if out[cur]["tables"] == 1:
@@ -75,12 +84,12 @@ def parse_doc_tables(text):
     return out
 
 
-DOC = parse_doc_tables(_DOC)
-
-
 def parse_equiv(cell):
     cell = cell.strip().replace(",", ".")
     return Fraction(cell)
+
+
+DOC = parse_doc_tables(_DOC)
 
 
 _GEN_DOC = None
